@@ -10,11 +10,11 @@ import AasVerif.Props.C18
 -/
 namespace AasVerif.Props.C02Cores
 
-theorem reduce_no_crash := @AasVerif.Props.C15.reduce_no_crash
-theorem reduce_wf := @AasVerif.Props.C15.reduce_wf
-theorem merge_no_crash := @AasVerif.Props.C15.merge_no_crash
-theorem translate_total := @AasVerif.Props.C18.translate_total
-theorem labels_ok := @AasVerif.Props.C18.labels_ok
-theorem program_constructible := @AasVerif.Props.C18.program_constructible
+theorem reduce_no_crash : type_of% @AasVerif.Props.C15.reduce_no_crash := @AasVerif.Props.C15.reduce_no_crash
+theorem reduce_wf : type_of% @AasVerif.Props.C15.reduce_wf := @AasVerif.Props.C15.reduce_wf
+theorem merge_no_crash : type_of% @AasVerif.Props.C15.merge_no_crash := @AasVerif.Props.C15.merge_no_crash
+theorem translate_total : type_of% @AasVerif.Props.C18.translate_total := @AasVerif.Props.C18.translate_total
+theorem labels_ok : type_of% @AasVerif.Props.C18.labels_ok := @AasVerif.Props.C18.labels_ok
+theorem program_constructible : type_of% @AasVerif.Props.C18.program_constructible := @AasVerif.Props.C18.program_constructible
 
 end AasVerif.Props.C02Cores
